@@ -131,6 +131,51 @@ class Run(object):
         raise AnalysisError(msg)
 
 
+class Alias(object):
+    """view of a Run under which the rules of another property's module are recorded under this property's rule ids (a rule
+    shared by two properties is evaluated by the same code, reported under each property's own name)"""
+
+    def __init__(self, run, mapping):
+        object.__setattr__(self, "_run", run)
+        object.__setattr__(self, "_map", dict(mapping))
+
+    def _r(self, rule):
+        base = rule.split("/")[0]
+        if base in self._map:
+            return self._map[base] + rule[len(base):]
+        return rule
+
+    def __getattr__(self, name):
+        return getattr(self._run, name)
+
+    def __setattr__(self, name, value):
+        setattr(self._run, name, value)
+
+    def rule(self, rule, text):
+        return self._run.rule(self._r(rule), text)
+
+    def want(self, rule):
+        return True
+
+    def inst(self, rule, desc, ok=True):
+        return self._run.inst(self._r(rule), desc, ok)
+
+    def violation(self, rule, file, line, function, construct, why):
+        return self._run.violation(self._r(rule), file, line, function, construct, why)
+
+    def check(self, cond, rule, file, line, function, construct, why, desc=None):
+        return self._run.check(cond, self._r(rule), file, line, function, construct, why, desc)
+
+    def shape(self, cond, rule, file, function, what):
+        return self._run.shape(cond, self._r(rule), file, function, what)
+
+    def floor(self, rule, minimum, what="instances"):
+        return self._run.floor(self._r(rule), minimum, what)
+
+    def exception(self, rule, symbol, reason):
+        return self._run.exception(self._r(rule), symbol, reason)
+
+
 def load_known():
     p = os.path.join(VERIF, "known_findings.json")
     if not os.path.exists(p):
